@@ -56,6 +56,30 @@ def random_acts(model, r):
   return acts
 
 
+def scene_options(r):
+  """brax's own scene options (custom numerics).  None of them is an external force on the system as a whole: angular
+  damping acts on spin only, the spring pipeline's mass / inertia scaling changes the effective masses the momentum is
+  measured with, the rest tune internal constraint forces.  (Global LINEAR damping stays at its default 0: the property
+  excludes it.)"""
+  o = {}
+  if r.random() < 0.5:
+    o['ang_damping'] = r.choice([0.5, 3.0, -1.0])
+  if r.random() < 0.4:
+    o['spring_mass_scale'] = r.choice([0.3, 0.5, 1.0])
+  if r.random() < 0.3:
+    o['spring_inertia_scale'] = r.choice([0.5, 1.0])
+  if r.random() < 0.3:
+    o['joint_scale_pos'] = r.choice([0.3, 0.8])
+    o['joint_scale_ang'] = r.choice([0.1, 0.4])
+  if r.random() < 0.3:
+    o['constraint_stiffness'] = r.choice([500.0, 8000.0])
+    o['constraint_vel_damping'] = r.choice([0.0, 5.0])
+    o['constraint_ang_damping'] = r.choice([0.0, 2.0])
+  if r.random() < 0.2:
+    o['collide_scale'] = r.choice([0.5, 0.8])
+  return o
+
+
 def collision_scene(r):
   """Two free bodies (sphere / capsule) approaching each other, no ground: contacts are body-body only."""
   def geom(k):
@@ -65,7 +89,8 @@ def collision_scene(r):
             f'mass="{r.uniform(0.5, 3):.3f}"/>')
   d = r.uniform(0.25, 0.5)
   xml = ('<mujoco><compiler angle="radian"/><option gravity="0 0 -9.81" timestep="0.002"/>'
-         f'<custom><numeric name="elasticity" data="{r.uniform(0, 0.8):.2f}"/></custom><worldbody>'
+         f'<custom><numeric name="elasticity" data="{r.uniform(0, 0.8):.2f}"/>'
+         + ''.join(f'<numeric name="{k}" data="{v!r}"/>' for k, v in scene_options(r).items()) + '</custom><worldbody>'
          f'<body name="a" pos="0 0 1"><freejoint/>{geom(1)}</body>'
          f'<body name="b" pos="{d:.3f} {r.uniform(-0.05, 0.05):.3f} {1 + r.uniform(-0.05, 0.05):.3f}"><freejoint/>{geom(2)}</body>'
          '</worldbody></mujoco>')
@@ -119,8 +144,16 @@ def run(ctx):
   for m in fmodels:
     if free_rooted(m):
       acts = random_acts(m, r)
-      xml = render.render(m, actuators=acts, gravity=(0.0, 0.0, -9.81), dt=0.002)
+      xml = render.render(m, actuators=acts, gravity=(0.0, 0.0, -9.81), dt=0.002, custom=scene_options(r) or None)
       qv, qdv = phys.float_state(m, r)
+      if r.random() < 0.2:      # a system flying (and tumbling) very fast: momentum bookkeeping must not depend on the speed
+        k = 0
+        for l in m['links']:
+          if l['root'] == 'free':
+            qdv[k:k + 3] = [x * 3000.0 for x in qdv[k:k + 3]]
+            k += 6
+          else:
+            k += len(l['stack'])
       ctrl = [[r.uniform(-2, 2) for _ in acts] for _ in range(T)]
       for pipe in ('spring', 'positional'):
         cases.append({'xml': xml, 'pipe': pipe, 'q': qv, 'qd': qdv, 'steps': T, 'acts': ctrl if acts else None})
